@@ -507,6 +507,96 @@ def cg_strong_witness(w, out):
              "asymmetry_of_M^-1W": asym})
 
 
+def flag_combinations(w, out):
+    """Deterministic (seed-independent): all four combinations of return_residuals x return_iteration_count for single
+    gmres / cg and blocked gmres, weak and strong form, on fixed systems.  With return_residuals the list has one entry per
+    iteration and equals the direct SciPy run on the same system; without it no list is returned; the count equals the number
+    of SciPy callbacks; solution and info do not depend on the flags."""
+    p1, dp0 = w.spaces[0], w.spaces[1]
+    W = np.array([[19, -4, -2, 0], [-4, 8, 0, 0], [-2, 0, 16, 4], [0, 0, 4, 14]], dtype="float64")
+    N = np.array([[9, 1, -2, 0], [2, 8, 0, 1], [-1, 0, 10, 3], [0, -2, 1, 7]], dtype="float64")
+    mk = lambda d, q, u, m: BoundaryOperatorWithAssembler(d, q, u, c14.StubAssembler(m), None)  # noqa: E731
+    single = mk(dp0, dp0, dp0, W)
+    single_n = mk(p1, p1, p1, N)
+    B = api.BlockedOperator(2, 2)
+    B[0, 0], B[0, 1] = mk(p1, p1, p1, N), mk(dp0, p1, p1, 0.5 * W[::-1])
+    B[1, 0], B[1, 1] = mk(p1, dp0, dp0, 0.25 * N.T), mk(dp0, dp0, dp0, W)
+    c = np.array([1.0, -2.0, 3.0, 0.5])
+    c2 = np.array([-1.0, 0.5, 2.0, 4.0])
+    systems = [("gmres", single_n, single_n * api.GridFunction(p1, coefficients=c), None),
+               ("cg", single, single * api.GridFunction(dp0, coefficients=c), None),
+               ("gmres-blocked", B, B * [api.GridFunction(p1, coefficients=c), api.GridFunction(dp0, coefficients=c2)], None)]
+    for name, op, b, _ in systems:
+        blocked = name == "gmres-blocked"
+        solver = api.linalg.cg if name == "cg" else api.linalg.gmres
+        for strong in (False, True):
+            tag = "%s-%s" % (name, "strong" if strong else "weak")
+            kw = dict(tol=1e-9, maxiter=40, use_strong_form=strong)
+            if name != "cg":
+                kw["restart"] = 3          # several restart cycles: the count is a number of inner iterations
+            # the direct SciPy run on the system the wrapper states
+            try:
+                A_op = op.strong_form() if strong else op.weak_form()
+                if blocked:
+                    rhs = (c14.blk.coefficients_from_grid_functions_list(b) if strong else
+                           c14.blk.projections_from_grid_functions_list(b, op.dual_to_range_spaces))
+                else:
+                    rhs = np.asarray(b.coefficients if strong else b.projections(op.dual_to_range))
+                mine = []
+                if name == "cg":
+                    x0, info0 = scipy.sparse.linalg.cg(A_op, rhs, rtol=kw["tol"], maxiter=kw["maxiter"],
+                                                       callback=lambda v: mine.append(float(np.linalg.norm(rhs - A_op @ v))))
+                else:
+                    x0, info0 = scipy.sparse.linalg.gmres(A_op, rhs, rtol=kw["tol"], restart=kw["restart"], maxiter=kw["maxiter"],
+                                                          callback=lambda v: mine.append(float(np.linalg.norm(v))),
+                                                          callback_type="legacy")
+            except Exception as ex:
+                rec(out, "C15:%s:flags:direct-scipy-run-raises-%s" % (tag, type(ex).__name__), str(ex)[:120])
+                continue
+            if not mine:
+                rec(out, "C15:%s:flags:harness-system-needs-no-iteration" % tag, "the fixed system converged without a callback")
+            base = None
+            for rr in (False, True):
+                for ric in (False, True):
+                    out["evaluations"] += 1
+                    fl = "[return_residuals=%s,return_iteration_count=%s]" % (rr, ric)
+                    data = {"solver": name, "use_strong_form": strong, "return_residuals": rr, "return_iteration_count": ric,
+                            "scipy_iterations": len(mine)}
+                    try:
+                        ret = solver(op, b, return_residuals=rr, return_iteration_count=ric, **kw)
+                    except Exception as ex:
+                        rec(out, "C15:%s:flags:raises-%s%s" % (tag, type(ex).__name__, fl), str(ex)[:120], data)
+                        continue
+                    if not isinstance(ret, tuple) or len(ret) != 2 + int(rr) + int(ric):
+                        rec(out, "C15:%s:flags:return-tuple-has-wrong-length%s" % (tag, fl),
+                            "expected (x, info%s%s)" % (", residuals" if rr else "", ", count" if ric else ""), data)
+                        continue
+                    x, info = ret[0], ret[1]
+                    res = ret[2] if rr else None
+                    count = ret[-1] if ric else None
+                    if rr:
+                        ok_list = isinstance(res, (list, tuple, np.ndarray)) and len(res) == len(mine) and len(res) > 0
+                        if not ok_list or not np.allclose(np.asarray(res, dtype=float), mine, rtol=1e-9, atol=1e-300):
+                            n_res = len(res) if hasattr(res, "__len__") else -1
+                            rec(out, "C15:%s:flags:residual-list-is-not-one-entry-per-iteration-of-the-scipy-run%s" % (tag, fl),
+                                "return_residuals=True returned %d residuals, the same SciPy run performs %d iterations"
+                                % (n_res, len(mine)), dict(data, residuals_returned=n_res))
+                    if ric and not (isinstance(count, (int, np.integer)) and int(count) == len(mine)):
+                        rec(out, "C15:%s:flags:iteration-count-differs-from-the-scipy-run%s" % (tag, fl),
+                            "count %r, SciPy callbacks %d" % (count, len(mine)), data)
+                    if rr and ric and hasattr(res, "__len__") and len(res) != count:
+                        rec(out, "C15:%s:flags:count-differs-from-number-of-residuals%s" % (tag, fl), "%r vs %d" % (count, len(res)), data)
+                    xv = (np.concatenate([np.asarray(g.coefficients) for g in x]) if blocked else np.asarray(x.coefficients))
+                    if base is None:
+                        base = (xv, info)
+                        if info != info0 or not np.allclose(xv, np.asarray(x0).ravel(), rtol=1e-12, atol=1e-14):
+                            rec(out, "C15:%s:flags:solution-or-info-differs-from-the-scipy-run" % tag,
+                                "info %r vs %r" % (info, info0), data)
+                    elif info != base[1] or not np.array_equal(xv, base[0]):
+                        rec(out, "C15:%s:flags:solution-or-info-depends-on-the-return-flags%s" % (tag, fl),
+                            "info %r vs %r, max deviation %.3g" % (info, base[1], float(np.abs(xv - base[0]).max())), data)
+
+
 def main():
     cfg = json.load(sys.stdin)
     thorough = cfg.get("strength") == "thorough"
@@ -516,6 +606,7 @@ def main():
         out["env"] = w.env_json()
         correspondence(w, out, 80 if thorough else 36)
         cg_strong_witness(w, out)
+        flag_combinations(w, out)
         solver_search(w, out, thorough)
     except Exception:
         out["crash"] = traceback.format_exc()
